@@ -268,9 +268,11 @@ class Executor:
                         return out + [Res(s, s.read(o.z, r2[0], attr))]
                 raise Unbound('attribute %s of %s (line %s)' % (attr, o.t.cls, node.lineno))
             if not (z3.is_const(o.z) and o.z.decl().name() in self.nonnull):
-                s_bad = s.copy().assume(o.z == NULL).note('L%s: .%s on None' % (node.lineno, attr))
-                out.append(Res(s_bad, exc='AttributeError', node=node))
-                s = s.copy().assume(o.z != NULL)
+                s, s_bad = s.fork(o.z != NULL, 'L%s: .%s on None' % (node.lineno, attr))
+                if s_bad is not None:
+                    out.append(Res(s_bad, exc='AttributeError', node=node))
+                if s is None:
+                    return out
             out.append(Res(s, s.read(o.z, o.t.cls, attr)))
             return out
         if o.t is NONE:
@@ -298,28 +300,34 @@ class Executor:
             ln = l_len(t, c.z)
             idx = z3.If(k.z < 0, k.z + ln, k.z)
             ok = z3.And(idx >= 0, idx < ln)
-            s_bad = s.copy().assume(z3.Not(ok)).note('L%s: list index out of range' % node.lineno)
-            s_ok = s.copy().assume(ok)
-            v = SV(t.elem, z3.Select(l_at(t, c.z), idx))
-            s_ok.type_facts(v)
-            return [Res(s_bad, exc='IndexError', node=node), Res(s_ok, v)]
+            s_ok, s_bad = s.fork(ok, 'L%s: list index out of range' % node.lineno)
+            out = [Res(s_bad, exc='IndexError', node=node)] if s_bad is not None else []
+            if s_ok is not None:
+                v = SV(t.elem, z3.Select(l_at(t, c.z), idx))
+                s_ok.type_facts(v)
+                out.append(Res(s_ok, v))
+            return out
         if isinstance(t, TDict):
             k = self.coerce(k, t.key, s)
             ok = z3.Select(d_dom(t, c.z), k.z)
-            s_bad = s.copy().assume(z3.Not(ok)).note('L%s: key not in dict' % node.lineno)
-            s_ok = s.copy().assume(ok)
-            v = SV(t.val, z3.Select(d_val(t, c.z), k.z))
-            s_ok.type_facts(v)
-            return [Res(s_bad, exc='KeyError', node=node), Res(s_ok, v)]
+            s_ok, s_bad = s.fork(ok, 'L%s: key not in dict' % node.lineno)
+            out = [Res(s_bad, exc='KeyError', node=node)] if s_bad is not None else []
+            if s_ok is not None:
+                v = SV(t.val, z3.simplify(z3.Select(d_val(t, c.z), k.z)))
+                s_ok.type_facts(v)
+                out.append(Res(s_ok, v))
+            return out
         if isinstance(t, TRec):
             lit = self.lit_key(k)
             if lit is not None and lit in t.fields:
                 ok = t.has(c.z, lit)
-                s_bad = s.copy().assume(z3.Not(ok)).note('L%s: key %r not in dict' % (node.lineno, lit))
-                s_ok = s.copy().assume(ok)
-                v = SV(t.fields[lit], t.get(c.z, lit))
-                s_ok.type_facts(v)
-                return [Res(s_bad, exc='KeyError', node=node), Res(s_ok, v)]
+                s_ok, s_bad = s.fork(ok, 'L%s: key %r not in dict' % (node.lineno, lit))
+                out = [Res(s_bad, exc='KeyError', node=node)] if s_bad is not None else []
+                if s_ok is not None:
+                    v = SV(t.fields[lit], z3.simplify(t.get(c.z, lit)))
+                    s_ok.type_facts(v)
+                    out.append(Res(s_ok, v))
+                return out
             if t.rest is None:
                 raise Unbound('computed key on record %s' % t.nm)
             self.assumed('computed keys of record dict %s never equal its literal keys %s' % (t.nm, sorted(t.fields)))
@@ -608,11 +616,13 @@ class Executor:
             def f(o, s):
                 if not isinstance(o.t, TRef):
                     raise Unbound('attribute store on %s' % o.t)
-                s_bad = s.copy().assume(o.z == NULL)
                 out = []
                 if not (z3.is_const(o.z) and o.z.decl().name() in self.nonnull):
-                    out.append(Res(s_bad, exc='AttributeError', node=node))
-                    s = s.copy().assume(o.z != NULL)
+                    s, s_bad = s.fork(o.z != NULL, 'L%s: attribute store on None' % node.lineno)
+                    if s_bad is not None:
+                        out.append(Res(s_bad, exc='AttributeError', node=node))
+                    if s is None:
+                        return out
                 r = find_field(o.t.cls, target.attr)
                 cls = o.t.cls
                 if r is None:
